@@ -1108,7 +1108,7 @@ def _read_byte_str(ctx: ReaderContext) -> bytes:
         if char == "":
             raise ctx.eof_error("Unexpected EOF in byte string")
         if ord(char) < 1 or ord(char) > 127:
-            raise ctx.eof_error("Byte strings must contain only ASCII characters")
+            raise ctx.syntax_error("Byte strings must contain only ASCII characters")
         if char == "\\":
             char = reader.next_char()
             escape_char = _BYTES_ESCAPE_CHARS.get(char, None)
